@@ -242,11 +242,26 @@ class Analysis:
         return st
 
     # ---- lvalue keys -----------------------------------------------------
-    def lkey(self, e):
+    def lkey(self, e, st=None):
         e = strip(e, lvalue_to_rvalue=False)
         if not isinstance(e, dict):
             return None
         k = e.get("k")
+        if st is not None and k in ("idx", "un"):
+            # element of the array a tracked local pointer refers to, at a constant index:  p[3], *p
+            base = idx = None
+            if k == "idx":
+                base, idx = strip(e["a"], all_casts=False), e["i"]
+            elif e.get("op") == "*":
+                base, idx = strip(e["e"], all_casts=False), None
+            if isinstance(base, dict) and base.get("k") == "ref" and base["d"].get("id") in self._tracked \
+                    and self.f.T(base.get("t")).get("k") == "ptr" and is_scalar(self.f.T(e.get("t"))):
+                if idx is None:
+                    return ("m", base["d"]["id"], "[0]")
+                iv = self.ev(idx, st, True)
+                if iv.is_const() and isinstance(iv.lo, int):
+                    return ("m", base["d"]["id"], "[%d]" % iv.lo)
+            return None
         if k == "ref":
             d = e["d"]
             if d.get("id") in self._tracked:
@@ -439,6 +454,9 @@ class Analysis:
                     return self.fit(AV(-v.hi - 1, -v.lo - 1), T)
                 return type_range(T)
             if op == "*":
+                key = self.lkey(e, st)
+                if key is not None and key in st:
+                    return st[key]
                 return type_range(T)
             if op == "&":
                 return AV(1, (1 << 64) - 1)
@@ -464,6 +482,9 @@ class Analysis:
             if not pure:
                 self.ev(e["a"], st, pure, root)
                 self.ev(e["i"], st, pure, root)
+            key = self.lkey(e, st)
+            if key is not None and key in st:
+                return st[key]
             return type_range(T)
         if k == "sizeof":
             return type_range(T)
@@ -530,7 +551,7 @@ class Analysis:
                 if la.get("k") not in ("ref",):
                     for ch in children(la):
                         self.ev(ch, st, pure, root)
-                self.store(e["a"], self.lkey(e["a"]), v, st)
+                self.store(e["a"], self.lkey(e["a"], st), v, st)
                 self.note_copy(self.lkey(e["a"]), e["b"], st)
             return v
         if op == ",":
@@ -660,7 +681,18 @@ class Analysis:
                 else:
                     return type_range(T)
             elif op == "&":
-                if a.lo >= 0 and b.lo >= 0:
+                m = None
+                if b.is_const() and isinstance(b.lo, int) and b.lo > 0 and a.lo >= 0 and a.hi != INF:
+                    m, x = b.lo, a
+                elif a.is_const() and isinstance(a.lo, int) and a.lo > 0 and b.lo >= 0 and b.hi != INF:
+                    m, x = a.lo, b
+                if m is not None and x.hi < (m & -m):
+                    r = AV(0, 0)                      # every set bit of the mask lies above the value
+                elif m is not None and (m & (m + 1)) == 0 and x.hi <= m:
+                    r = AV(x.lo, x.hi)                # low-bits mask covering the value: identity
+                elif m is not None and (m & (m - 1)) == 0 and x.lo >= m and x.hi < 2 * m:
+                    r = AV(m, m)                      # single bit that is set in every value of the range
+                elif a.lo >= 0 and b.lo >= 0:
                     r = AV(0, min(a.hi, b.hi))
                 elif b.lo >= 0:
                     r = AV(0, b.hi)
@@ -833,27 +865,31 @@ class Analysis:
         if _depth == 0 and self.f.T(c.get("t")).get("k") != "float":
             # the condition was just evaluated as a CFG element: use that value (side effects like n-- are already applied)
             v0 = st.get(("s", c.get("sid"))) if "sid" in c else None
-            if v0 is None:
+            if v0 is None and not any(n.get("k") == "un" and n.get("op") in ("++", "--") or (n.get("k") == "bin" and n.get("op", "").endswith("=") and n["op"] not in ("==", "!=", "<=", ">=")) for n in walk(c)):
                 v0 = self.ev(c, st, True)
+            if v0 is None:
+                v0 = AV(-INF, INF)
             if truth and v0.lo == 0 and v0.hi == 0 and not v0.nan:
                 return None
             if not truth and not v0.contains(0) and not v0.nan:
                 return None
+        if k == "un" and c.get("op") in ("++", "--") and c.get("post"):
+            return st      # value before the (already applied) side effect: nothing to learn from the current state
         if k == "cast":
             ck = c.get("ck")
             if ck in ("IntegralToBoolean", "PointerToBoolean", "LValueToRValue", "NoOp", "FloatingToBoolean"):
                 if ck == "LValueToRValue":
                     return self.refine_lv(st, c["e"], truth)
-                return self.refine(st, c["e"], truth)
+                return self.refine(st, c["e"], truth, _depth + 1)
             if ck == "IntegralCast":
                 # zero-ness is preserved by widening / same-width casts
                 ST = self.f.T(c["e"].get("t"))
                 TT = self.f.T(c.get("t"))
                 if ST.get("sz", 0) <= TT.get("sz", 0) or self.ev(c["e"], st, True).within(type_range(TT).lo, type_range(TT).hi):
-                    return self.refine(st, c["e"], truth)
+                    return self.refine(st, c["e"], truth, _depth + 1)
             return st
         if k == "un" and c.get("op") == "!":
-            return self.refine(st, c["e"], not truth)
+            return self.refine(st, c["e"], not truth, _depth + 1)
         if k == "un" and c.get("op") in ("++", "--") and not c.get("post"):
             # value of ++x is the new x (already stored by the transfer)
             return self.refine_lv(st, c["e"], truth)
@@ -861,19 +897,19 @@ class Analysis:
             op = c["op"]
             if op == "&&":
                 if truth:
-                    st = self.refine(st, c["a"], True)
-                    return self.refine(st, c["b"], True)
+                    st = self.refine(st, c["a"], True, _depth + 1)
+                    return self.refine(st, c["b"], True, _depth + 1)
                 return st
             if op == "||":
                 if not truth:
-                    st = self.refine(st, c["a"], False)
-                    return self.refine(st, c["b"], False)
+                    st = self.refine(st, c["a"], False, _depth + 1)
+                    return self.refine(st, c["b"], False, _depth + 1)
                 return st
             if op == "=":
                 # value of the assignment is the stored value (already applied by transfer)
                 return self.refine_lv(st, c["a"], truth)
             if op == ",":
-                return self.refine(st, c["b"], truth)
+                return self.refine(st, c["b"], truth, _depth + 1)
             if op in ("<", ">", "<=", ">=", "==", "!="):
                 return self.refine_cmp(st, op, c["a"], c["b"], truth)
             if op == "&":
